@@ -48,7 +48,7 @@ def _subsets(n, all_subsets):
                   "RandomWalk(maxiter=) default 80 replaced by the bound `rw_maxiter` so that the give-up branch is reachable"],
            assumes=["the start grid points do not overlap supplied residues (start grid is placed away from the sentinels)"],
            outside=["schedules with more interposed placement calls than `calls`", "graphs outside the shape catalogue"],
-           must_cover=["rewound", "abandoned", "finished", "retry_after_abandon"],
+           must_cover=["rewound", "abandoned", "finished", "retry_after_abandon", "tree cached"],
            cfg={"path_timeout_s": 20},
            bounds={"quick": dict(shapes=Q_SHAPES, calls=7, nrewind=(2, 4), rw_maxiter=(2,), all_subsets=False, attempts=1),
                    "thorough": dict(shapes=T_SHAPES[:9], calls=9, nrewind=(2, 5), rw_maxiter=(2, 3), all_subsets=False, attempts=2)},
@@ -63,6 +63,7 @@ def rewind(sx, B):
     given_mask = sx.sel("given", _subsets(n, B["all_subsets"]))
     rw_maxiter = sx.sel("rw_maxiter", B["rw_maxiter"])
     use_start = sx.sel("start_node", [False, True])
+    cached = sx.sel("search_tree_cached_before_building", [False, True])
     nrewind = sx.int("nrewind", *B["nrewind"])
     ncalls = B["calls"]
     outcomes = [sx.bool("o%d" % i) for i in range(ncalls)]
@@ -83,8 +84,14 @@ def rewind(sx, B):
     top = make_topology([m0, m1, m2])
     start_dict = {0: None, 1: None, 2: None}
     if use_start:
-        # grow from the last node of the catalogue shape
-        start_dict[1] = n - 1
+        # grow from the last node of the catalogue shape, selected the way gen_coords does it (-start <molname>-<resname>#<resid>)
+        import polyply.src.gen_coords as _gc
+        start_dict = _gc.find_starting_node_from_spec(top, ["M1-A#%d" % n])
+        sx.claim(start_dict[1] == n - 1 and start_dict[0] is None and start_dict[2] is None, "the start specification selects the named residue")
+    if cached:
+        # as happens when restraints are set up before building (set_restraints / end-to-end sampling walk the search tree)
+        list(m1.search_tree.edges)
+        sx.cover("tree cached")
     state = dict(calls=0, accepted={}, k=0, attempt_calls=0, step_of={}, abandoned=0)
     engine_box = {}
 
